@@ -1,6 +1,6 @@
 (* SpanSchemas.v — the span constructions rules use are in bounds given the token invariant (C03),
    and the chunk cache of LintGroup::lint re-bases spans without leaving the chunk. *)
-Require Import Base ListLemmas.
+Require Import Base ListLemmas Rebase.
 
 (* ---------- cache re-basing (LintGroup::lint) ---------- *)
 (* a lint inside the chunk hull [a,b) is stored relative to a, and re-emitted at a chunk [a',b') of
@@ -27,6 +27,32 @@ Proof.
   destruct (send sp <? a) eqn:E2; [apply Nat.ltb_lt in E2; lia|].
   cbn [bind]. eexists. split; [reflexivity|]. unfold push_by. cbn [sstart send].
   destruct sp as [s e]. cbn [sstart send] in *. f_equal; lia.
+Qed.
+
+(* the executable re-basing used in the correspondence computes exactly that *)
+Lemma rebase_span_value (a a' s e : nat) :
+  a <= s -> s <= e -> rebase_span a a' (s, e) = Ok (s - a + a', e - a + a').
+Proof.
+  intros H1 H2. unfold rebase_span, pull_by, sub_chk. cbn [fst snd sstart send].
+  destruct (s <? a) eqn:E1; [apply Nat.ltb_lt in E1; lia|].
+  destruct (e <? a) eqn:E2; [apply Nat.ltb_lt in E2; lia|].
+  cbn [bind push_by sstart send]. reflexivity.
+Qed.
+
+Lemma run_rebase_total (a a' : nat) (ls : list (nat * nat)) :
+  Forall (fun se => a <= fst se /\ fst se <= snd se) ls ->
+  run_rebase a a' ls = Some (map (fun se => (fst se - a + a', snd se - a + a')) ls).
+Proof.
+  induction ls as [|[s e] t IH]; intros H; [reflexivity|].
+  inversion H as [|x l [Ha Hb] Ht]; subst. cbn [run_rebase fst snd map] in *.
+  rewrite (rebase_span_value a a' s e Ha Hb), (IH Ht). reflexivity.
+Qed.
+
+Lemma run_rebase_panics (a a' s e : nat) (t : list (nat * nat)) :
+  s < a -> run_rebase a a' ((s, e) :: t) = None.
+Proof.
+  intros H. cbn [run_rebase]. unfold rebase_span, pull_by, sub_chk. cbn [fst snd sstart send].
+  apply Nat.ltb_lt in H. rewrite H. reflexivity.
 Qed.
 
 (* pull_by underflows (debug panic) exactly when the lint starts before the chunk *)
